@@ -18,10 +18,34 @@ MOD = "mc.props.c17"
 MAXB = [65536, 1, 2, 3, 5]
 
 
+class _TwoStep(ScriptConn):
+    """Answers the first request with an ordinary keep-alive response and the second one with the script."""
+
+    def __init__(self, first: bytes, script: bytes):
+        super().__init__(script, eof=False, when="complete")
+        self.first = first
+        self.n = 0
+
+    def _mc_state(self):
+        return ("twostep", self.n) + tuple(super()._mc_state())
+
+    def on_data(self, tr, data):
+        self.got += data
+        for ev, req in self.parser.feed(data):
+            if ev == "complete":
+                self.n += 1
+                if self.n == 1:
+                    tr.send(self.first)
+                else:
+                    self._go(tr)
+
+
 class UpgradeHarness:
     horizon = 4000
 
-    def __init__(self, variant, mode, data, status=None, prelude="none"):
+    def __init__(self, variant, mode, data, status=None, prelude="none", reused=False):
+        self.reused = reused              # the switch happens on a RE-USED keep-alive connection of a pool with keepalive_expiry; while the
+                                          # caller holds the stream, time passes beyond that expiry and the pool serves another request
         self.prelude = prelude            # what the caller does with the (empty) response body before touching the stream: none | read | iter
         self.variant = variant
         self.mode = mode                  # "101" | "connect"
@@ -33,7 +57,10 @@ class UpgradeHarness:
             head = b"HTTP/1.1 101 \r\nUpgrade: x\r\n\r\n"
         else:
             head = b"HTTP/1.1 %d OK\r\n\r\n" % self.status
-        script = ScriptConn(head + self.data, eof=False, when="complete")
+        if self.reused:
+            script = _TwoStep(b"HTTP/1.1 200 OK\r\nContent-Length: 7\r\n\r\n<first>", head + self.data)
+        else:
+            script = ScriptConn(head + self.data, eof=False, when="complete")
         later = H1Server(make_echo_responder("cl"))
         made = []
 
@@ -45,7 +72,7 @@ class UpgradeHarness:
         collected = bytearray()     # joined: different chunkings of the same bytes have the same future
         w = SeqWorld(chooser, router, variant=self.variant, merge_roots=[collected], segment=True, faults=0)
         cls = httpcore.ConnectionPool if self.variant == "sync" else httpcore.AsyncConnectionPool
-        pool = cls(network_backend=w.backend)
+        pool = cls(network_backend=w.backend, **({"keepalive_expiry": 5.0} if self.reused else {}))
         w.roots.append(pool)
         n = len(self.data)
         info = {}
@@ -59,8 +86,15 @@ class UpgradeHarness:
 
         if self.variant == "sync":
             def prog():
+                if self.reused:
+                    r0 = pool.request("GET", "http://a.example/t/first")
+                    info["first"] = (r0.status, r0.content)
                 with pool.stream(method, url, headers=hdrs) as r:
                     info["status"] = r.status
+                    if self.reused:
+                        w.env.time += 6.0
+                        r1 = pool.request("GET", "http://b.example/t/other")
+                        info["other"] = (r1.status, r1.content)
                     if self.prelude == "read":
                         info["body"] = r.read()
                     elif self.prelude == "iter":
@@ -77,7 +111,7 @@ class UpgradeHarness:
                         collected.extend(chunk)
                     ns.write(b"client-says-hi")
                     info["in_pool_during"] = [repr(c) for c in pool.connections]
-                info["in_pool_after"] = [repr(c) for c in pool.connections]
+                info["in_pool_after"] = [repr(c) for c in pool.connections if "a.example" in repr(c)]
                 info["open_after"] = [t.id for t in w.net.open_transports()]
                 w.env.segment = False
                 r2 = pool.request("GET", "http://a.example/t/next")
@@ -86,8 +120,15 @@ class UpgradeHarness:
             res = w.run(sync_fn=prog)
         else:
             async def aprog():
+                if self.reused:
+                    r0 = await pool.request("GET", "http://a.example/t/first")
+                    info["first"] = (r0.status, r0.content)
                 async with pool.stream(method, url, headers=hdrs) as r:
                     info["status"] = r.status
+                    if self.reused:
+                        w.env.time += 6.0
+                        r1 = await pool.request("GET", "http://b.example/t/other")
+                        info["other"] = (r1.status, r1.content)
                     if self.prelude == "read":
                         info["body"] = await r.aread()
                     elif self.prelude == "iter":
@@ -104,7 +145,7 @@ class UpgradeHarness:
                         collected.extend(chunk)
                     await ns.write(b"client-says-hi")
                     info["in_pool_during"] = [repr(c) for c in pool.connections]
-                info["in_pool_after"] = [repr(c) for c in pool.connections]
+                info["in_pool_after"] = [repr(c) for c in pool.connections if "a.example" in repr(c)]
                 info["open_after"] = [t.id for t in w.net.open_transports()]
                 w.env.segment = False
                 r2 = await pool.request("GET", "http://a.example/t/next")
@@ -115,6 +156,8 @@ class UpgradeHarness:
         ex.notes["unmergeable"] = sorted(w.unmergeable)
         ex.trace = [op.rec() for op in w.net.ledger if op.kind in ("read", "write", "close", "connect_tcp")] + [{"reads": info.get("reads")}]
         sig = {"harness": "upgrade", "mode": self.mode}
+        if self.reused:
+            sig["reused"] = True
         if self.prelude != "none":
             sig["prelude"] = self.prelude
         got = bytes(collected)
@@ -148,7 +191,9 @@ class UpgradeHarness:
             viol("not-closed", "switched-protocol stream still open after the response was closed")
         if info.get("next") != (200, b"<next>"):
             viol("next-request", f"following request gave {info.get('next')}")
-        if len(w.net.transports) != 2:
+        if self.reused and (info.get("first") != (200, b"<first>") or info.get("other") != (200, b"<other>")):
+            viol("neighbour-requests", f"the ordinary requests around the switch gave first={info.get('first')} other={info.get('other')}")
+        if len(w.net.transports) != (3 if self.reused else 2):
             viol("reused", f"{len(w.net.transports)} streams opened; the following request must open a new connection")
         ex.outcome = f"ok:{len(got)}"
         return ex
@@ -203,6 +248,9 @@ def specs(tier):
             for d in datas:
                 out.append(make_spec(MOD, "UpgradeHarness", variant=variant, mode=mode, data=d))
         out.append(make_spec(MOD, "UpgradeHarness", variant=variant, mode="connect", data="abc", status=204))
+        # the switch on a re-used connection of a pool with keepalive_expiry, the stream held beyond that expiry
+        for mode in ("101", "connect"):
+            out.append(make_spec(MOD, "UpgradeHarness", variant=variant, mode=mode, data="abc", reused=True))
         # the caller drains the (empty) response body before using the stream
         for mode in ("101", "connect"):
             for prelude in ("read", "iter"):
